@@ -1,7 +1,8 @@
 #!/bin/bash
 # Confirms seeded changes in a scratch worktree (never /repo): patch applies, the demonstration fails
 # with it and passes without it, and the pinned workspace suite still passes with it.
-# usage: seedverify.sh <seed-id>...   (results: /verif/seeded/<id>/verify.txt)
+# usage: [SEED_BASE=<commit>] seedverify.sh [--rerun-only] <seed-id>...   (results: /verif/seeded/<id>/verify.txt)
+# SEED_BASE: commit of /repo the seed was written against (default: HEAD)
 W=/tmp/seedverify; T=/tmp/seedverify-target
 export CARGO_NET_OFFLINE=true CARGO_TARGET_DIR=$T
 if [ ! -d $W ]; then git -C /repo worktree add -q --detach $W HEAD || exit 2; fi
@@ -22,7 +23,7 @@ rerun_failed() {
 for id in "$@"; do
   D=/verif/seeded/$id; OUT=$D/verify.txt
   if [ $RERUN_ONLY = 1 ]; then
-    cd $W && git checkout -q --detach $(git -C /repo rev-parse HEAD) && git checkout -q -- . && git clean -fdq -e Cargo.lock
+    cd $W && git checkout -q --detach ${SEED_BASE:-$(git -C /repo rev-parse HEAD)} && git checkout -q -- . && git clean -fdq -e Cargo.lock
     (cd $W && git apply $D/patch.diff) || { echo "PATCH DOES NOT APPLY" >> $OUT; continue; }
     sed -i '/RERUN ALONE/d' $OUT
     rerun_failed
@@ -30,7 +31,7 @@ for id in "$@"; do
     continue
   fi
   : > $OUT
-  cd $W && git checkout -q --detach $(git -C /repo rev-parse HEAD) && git checkout -q -- . && git clean -fdq -e Cargo.lock
+  cd $W && git checkout -q --detach ${SEED_BASE:-$(git -C /repo rev-parse HEAD)} && git checkout -q -- . && git clean -fdq -e Cargo.lock
   demo=$(ls $D/demo.rs 2>/dev/null)
   crate=trust-runtime
   if [ -n "$demo" ]; then
@@ -43,7 +44,15 @@ for id in "$@"; do
       mkdir -p $W/crates/$crate/tests && cp $demo $W/crates/$crate/tests/zz_seed_demo.rs
       (cd $W && timeout 1500 cargo test -p $crate --test zz_seed_demo --offline 2>&1 | grep -E "^test result|panicked|error(\[|:)" | head -5)
       rm -f $W/crates/$crate/tests/zz_seed_demo.rs
-    elif [ -f $D/demo.sh ]; then (cd $W && WORKTREE=$W timeout 1500 bash $D/demo.sh 2>&1 | tail -3); else echo "no demo"; fi
+    elif [ -f $D/demo.sh ]; then (cd $W && WORKTREE=$W timeout 1500 bash $D/demo.sh 2>&1 | tail -3)
+    elif [ -f $D/demo.diff ]; then
+      # a diff that adds a unit-test module to trust-lsp (c15_demo_<k>)
+      name=$(grep -o "^+mod [a-z0-9_]*" $D/demo.diff | head -1 | cut -d' ' -f2)
+      (cd $W && git apply $D/demo.diff && timeout 1500 cargo test -p trust-lsp --bins --offline $name 2>&1 | grep -E "^test result|panicked|error(\[|:)" | head -5; git apply -R $D/demo.diff)
+    elif [ -f $D/demo.py ]; then
+      # a python LSP client driving the worktree's trust-lsp binary
+      (cd $W && cargo build -p trust-lsp --offline 2>&1 | grep -E "^error" | head -3; cd $D && TRUST_LSP=$T/debug/trust-lsp timeout 600 python3 demo.py > /tmp/seedverify-demo.out 2>&1; echo "demo.py exit=$?"; tail -4 /tmp/seedverify-demo.out)
+    else echo "no demo"; fi
   }
   echo "== demo WITHOUT the change ($crate):" >> $OUT; run_demo >> $OUT 2>&1
   if ! (cd $W && git apply $D/patch.diff 2>>$OUT); then echo "PATCH DOES NOT APPLY" >> $OUT; continue; fi
